@@ -501,6 +501,21 @@ def entry_history(ctx, rng):
     from . import c03
     from .. import workloads as _w
 
+    if rng.random() < .3:
+        # several sinks through ONE stream with namespace declarations: declarations arrive mid-stream and move the
+        # prefix/name cursors of writer and reader between statements
+        cfg, groups, nss = _w.multi_sink_case(rng, with_ns=True)
+        w, res = c03.check_groups(cfg, groups, nss)
+        ctx.observe("entry-histories")
+        ctx.observe(f"entry-history:{cfg['integration']}:multi-sink-with-declarations")
+        if w is not None and w["clause"] != "serializer-raised":
+            ctx.violation({"clause": "entry-history:" + w["clause"], "kind": "walk", "sizes": list(cfg["preset"]), "mode": "entry-multi-sink",
+                           "cfg": cfg, "summary": f"{cfg['integration']}: {len(groups)} sinks with declarations through one stream, sizes "
+                                                  f"{cfg['preset']}: " + w["summary"]})
+        ctx.case(("entry-multi", sorted(cfg.items()), groups, nss), res is not None and len(groups) >= 2,
+                 sample={"kind": "entry-history", "entry": f"{cfg['integration']}:multi-sink", "sizes": list(cfg["preset"]),
+                         "sinks": len(groups), "bindings": [len(n) for n in nss]})
+        return
     cfg, stmts, ns = _w.serializer_case(rng, max_len=60, p_ns=0.0)
     if cfg["entry"] != "sink_serialize":
         n, p, d = cfg["preset"]
